@@ -9,7 +9,8 @@ CLAIMS = ("R1 in every finaliser table (hash_agg::build_agg_array, hash_agg::bui
           "R5 (= C07.R6) partial MIN states are never merged with Option's ordering; "
           "R6 the group tables compare keys with GROUPING semantics: every row comparator an aggregation function of hash_agg.rs calls to decide 'same group' answers true for two NULLs and false for NULL vs non-NULL (evaluated abstractly over the NULL-ness of both operands); a comparator with join semantics (NULL never matches) splits the NULL group into one group per row; "
           "R7 no aggregate result is a fabricated sentinel: in the aggregate evaluators (hash_agg.rs, morsel_agg.rs) the Option produced by Iterator::min/max/min_by/max_by/reduce over the non-NULL inputs never reaches an array constructor or builder through unwrap_or(<constant>) / unwrap_or_default (MIN/MAX over no rows is NULL, not i64::MAX); "
-          "R8 the morsel group table does not infer slot occupancy from slot content: a never-used slot and the group whose key is NULL in every column (with no aggregates, e.g. GROUP BY k / DISTINCT) have identical content (all-Null key, no accumulator that saw data), so a predicate over (key, accumulators) alone must drop that group or emit a phantom one; occupancy has to be recorded.")
+          "R8 the morsel group table does not infer slot occupancy from slot content: a never-used slot and the group whose key is NULL in every column (with no aggregates, e.g. GROUP BY k / DISTINCT) have identical content (all-Null key, no accumulator that saw data), so a predicate over (key, accumulators) alone must drop that group or emit a phantom one; occupancy has to be recorded; "
+          "R9 the 'saw a non-NULL input' flag travels with the sum: wherever a Sum/SumInt accumulator's value is added to through a pattern binding, the same binding site also takes the flag and writes it (true, or OR-ed with the other side's flag) - a value added without the flag finalises to NULL.")
 NOT_DECIDED = "numeric results; that the single batch of an empty global aggregate has exactly one row (a value of aggregate_batches*)."
 
 HA = "physical::operators::hash_agg"
@@ -156,3 +157,34 @@ def run(F, R):
     reads = sorted({(fld, a.rsplit("::", 1)[-1]) for bb, acc, fld, a, line in sh.field_accesses()})
     content_only = all(("GroupKey" in t or "AccumulatorState" in t) for t in argt) and all(a in ("GroupKey", "AccumulatorState") or a.startswith("AccumulatorState") for f_, a in reads)
     R.check(not content_only, "C21.R8", "slot_has_data:occupancy-inferred-from-content", "the perfect-hash table tells a used slot from a free one by looking at the slot's key and accumulators only; for GROUP BY without aggregates the all-NULL-key group is indistinguishable from a free slot and is dropped (`SELECT k FROM t GROUP BY k` over Parquet loses the NULL group)", sh.loc(), dict(parameters=argt, fields_read=reads))
+    # ---- R9: value and seen-flag are updated together
+    R.rule("C21.R9", "K2 pairing", "Sum/SumInt: every value += through a binding is paired with a write of the seen flag of the same accumulator")
+    n9 = 0
+    for file in ("src/physical/morsel_agg.rs", "src/physical/operators/morsel_agg.rs"):
+        for g in F.in_file(file):
+            refs = {}
+            for i, j, dst, rv, line in g.stmts():
+                if rv[0] == "ref" and rv[1] == "mut" and "|" not in dst:
+                    m_ = re.search(r"^(.*)\|v:(Sum|SumInt)\|f:(\d):", rv[2])
+                    if m_:
+                        refs.setdefault((m_.group(1), m_.group(2)), {}).setdefault(int(m_.group(3)), []).append((place_local(dst), i, line))
+            for (base, var), d in sorted(refs.items()):
+                for l, i, line in d.get(0, []):
+                    wr = [ii for ii, j, dst, rv, ln in g.stmts() if dst == f"{l}|*"]
+                    wr += [c.bb for c in g.calls() if c.name.rsplit("::", 1)[-1] == "add_assign" and c.args and op_place(c.args[0]) and place_local(op_place(c.args[0])) == l]
+                    if not wr:
+                        continue
+                    n9 += 1
+                    flagw = []
+                    for l1, i1, line1 in d.get(1, []):
+                        flagw += [ii for ii, j, dst, rv, ln in g.stmts() if dst == f"{l1}|*"]
+                        flagw += [c.bb for c in g.calls() if c.name.rsplit("::", 1)[-1] in ("bitor_assign",) and c.args and op_place(c.args[0]) and place_local(op_place(c.args[0])) == l1]
+                    root = F.bodies[g.path].get("root") or g.path
+                    R.check(bool(flagw), "C21.R9", f"{root.rsplit('::', 1)[-1]}:{var}@{_nth(g, i)}", f"a {var} accumulator's value is added to without its 'saw an input' flag being written at the same site: a group whose first state was created by an all-NULL batch keeps flag = false and SUM finalises to NULL although real inputs were added", g.loc(wr[0]), dict(value_writes=len(wr), flag_writes=len(flagw)))
+    R.floor("C21.R9", "Sum/SumInt value-accumulation sites through bindings", n9, 6)
+
+
+def _nth(g, bb):
+    """ordinal of the block among the function's Sum-binding sites (stable under line shifts)"""
+    sites = sorted({i for i, j, dst, rv, line in g.stmts() if rv[0] == "ref" and rv[1] == "mut" and re.search(r"\|v:(Sum|SumInt)\|f:0:", rv[2])})
+    return sites.index(bb) if bb in sites else -1
